@@ -66,6 +66,9 @@ impl Args {
     }
 }
 
+/// Panics of fjall's background worker threads (they poison the database; the client only sees `Poisoned`).
+pub static WORKER_PANICS: std::sync::Mutex<Vec<String>> = std::sync::Mutex::new(Vec::new());
+
 thread_local! {
     pub static LAST_PANIC: std::cell::RefCell<Option<String>> = const { std::cell::RefCell::new(None) };
 }
@@ -85,6 +88,11 @@ pub fn install_panic_hook() {
             .unwrap_or_default();
         let text = format!("{msg} @ {loc}");
         LAST_PANIC.with(|p| *p.borrow_mut() = Some(text.clone()));
+        if std::thread::current().name().is_some_and(|n| n.starts_with("fjall:worker")) {
+            if let Ok(mut g) = WORKER_PANICS.lock() {
+                g.push(text.clone());
+            }
+        }
         if std::env::var("FJV_PANIC_TRACE").is_ok() {
             eprintln!("panic: {text}");
         }
